@@ -230,6 +230,10 @@ func (c *fnCtx) call(call *ast.CallExpr) *Stmt {
 	for _, a := range call.Args {
 		c.escapes(a, "is passed to a function outside the translated packages")
 	}
+	if why, bad := c.t.connBad[call.Pos()]; bad {
+		return seq(c.expr(fun), c.exprs(call.Args),
+			&Stmt{K: KWr, Ref: Ref{Name: exprText(fun)}, Label: "websocket connection (second writer): " + strings.ReplaceAll(why, "\"", "'"), Pos: c.pos(call.Pos())})
+	}
 	return seq(c.expr(fun), c.exprs(call.Args))
 }
 
@@ -416,7 +420,7 @@ func (c *fnCtx) finish(s *Stmt) {
 	}
 	if s.hasLockOp() {
 		for _, cb := range c.callbacks {
-			if !cb.trivial() {
+			if !cb.trivial() && !cb.onlyPseudo() {
 				c.t.fail(c.fi.Decl.Pos(), "%s takes locks and also contains a function literal that touches locks, guarded fields or channels: call order unknown", c.fi.Name)
 			}
 		}
@@ -538,7 +542,7 @@ func (c *fnCtx) stmt(s ast.Stmt) flow {
 		return c.simple(c.expr(x.X))
 	case *ast.SendStmt:
 		c.escapes(x.Value, "is sent on a channel")
-		return c.simple(seq(c.expr(x.Chan), c.expr(x.Value), c.checkSent(x.Chan, x.Value, x.Pos()), c.block(x.Chan, x.Pos())))
+		return c.simple(seq(c.expr(x.Chan), c.expr(x.Value), c.checkSent(x.Chan, x.Value, x.Pos()), c.block(x.Chan, x.Pos()), &Stmt{K: KMark, Label: "send on " + exprText(x.Chan)}))
 	case *ast.IncDecStmt:
 		return c.simple(c.assign([]ast.Expr{x.X}, nil, token.ADD_ASSIGN, x.Pos()))
 	case *ast.AssignStmt:
@@ -759,7 +763,9 @@ func (c *fnCtx) selectStmt(x *ast.SelectStmt) flow {
 		return c.simple(&Stmt{K: KBlock, Label: "select{}", Pos: c.pos(x.Pos())})
 	}
 	var arms []flow
-	for _, cl := range x.Body.List {
+	c.t.selN++
+	selID := c.t.selN
+	for armNo, cl := range x.Body.List {
 		cc := cl.(*ast.CommClause)
 		var pre *Stmt
 		blk := func(ch ast.Expr) *Stmt {
@@ -779,7 +785,7 @@ func (c *fnCtx) selectStmt(x *ast.SelectStmt) flow {
 		case nil:
 		case *ast.SendStmt:
 			c.escapes(cm.Value, "is sent on a channel")
-			pre = seq(c.expr(cm.Chan), c.expr(cm.Value), c.checkSent(cm.Chan, cm.Value, cm.Pos()), blk(cm.Chan))
+			pre = seq(c.expr(cm.Chan), c.expr(cm.Value), c.checkSent(cm.Chan, cm.Value, cm.Pos()), blk(cm.Chan), &Stmt{K: KMark, Label: "send on " + exprText(cm.Chan)})
 		case *ast.ExprStmt:
 			pre = recv(cm.X)
 		case *ast.AssignStmt:
@@ -798,7 +804,7 @@ func (c *fnCtx) selectStmt(x *ast.SelectStmt) flow {
 		}
 		b := c.stmts(cc.Body)
 		b.norm, b.brk = choice(b.norm, b.brk), nil
-		arms = append(arms, prefixFlow(pre, b))
+		arms = append(arms, prefixFlow(seq(&Stmt{K: KMark, Sel: selID, Arm: armNo + 1}, pre), b))
 	}
 	return choiceFlow(arms...)
 }
@@ -1066,6 +1072,17 @@ func (t *Trans) translateAll() {
 	}
 	for _, e := range t.entries {
 		renderNames(e.Body)
+	}
+	// request handlers of the access API: all-or-nothing effects
+	for _, e := range t.entries {
+		if e.Kind == "callback-literal" && strings.HasPrefix(e.Name, "access.") {
+			if why := allOrNothing(e.Body); why != "" {
+				e.Body = seq(&Stmt{K: KWr, Ref: Ref{Name: e.Name}, Label: "handler effects (not all-or-nothing): " + why, Pos: e.Pos}, e.Body)
+			}
+		}
+	}
+	for _, e := range t.entries {
+		e.Body = e.Body.stripMarks()
 	}
 }
 
